@@ -383,6 +383,11 @@ fn step(ctx: &Ctx, st: &mut Stats, set: &MSet, act: Act, also_reversed: bool) ->
 /// (class key, base of its simple target name)
 const KEYS_QUICK: &[(&str, &str)] = &[("A", "Aa"), ("A$B", "Bb"), ("A$B$C", "Cc"), ("A$B$C$D", "Dd"), ("p/A", "q/Pa"), ("p/A$B", "Pb"), ("X$Y", "Yy")];
 const KEYS_THOROUGH_EXTRA: &[(&str, &str)] = &[("A$", "Ae"), ("$A", "Ea"), ("A$$B", "Eb")];
+/// A second universe in which several classes share one simple target name (`S`): two different nested
+/// classes called the same under different outer classes, one of them with classes nested inside it, and a
+/// top-level class with that name. The target namespace is not required to be injective, and anything the
+/// implementation keys by *target* name instead of source name shows here and nowhere else.
+const KEYS_SHARED: &[(&str, &str)] = &[("A", "Aa"), ("A$B", "S"), ("A$B$C", "Cc"), ("X", "Xx"), ("X$B", "S"), ("X$B$C", "Cd"), ("S", "S")];
 const KIND_NAMES: &[&str] = &["absent", "simple", "already-extended"];
 
 struct Alphabet {
@@ -411,11 +416,15 @@ fn target(base: &str, key: &str, j: usize, kind: usize) -> Option<String> {
 
 impl Alphabet {
 	fn new(n: usize, tier: vcore::Tier) -> Alphabet {
-		let ns: Vec<String> = if n == 2 { vec!["official".into(), "named".into()] } else { vec!["a".into(), "b".into(), "c".into()] };
 		let mut all: Vec<(&str, &str)> = KEYS_QUICK.to_vec();
 		if tier == vcore::Tier::Thorough {
 			all.extend(KEYS_THOROUGH_EXTRA);
 		}
+		Alphabet::with_keys(n, all)
+	}
+
+	fn with_keys(n: usize, all: Vec<(&str, &str)>) -> Alphabet {
+		let ns: Vec<String> = if n == 2 { vec!["official".into(), "named".into()] } else { vec!["a".into(), "b".into(), "c".into()] };
 		let mut keys = Vec::new();
 		let mut rejected = Vec::new();
 		for (k, b) in all {
@@ -734,7 +743,7 @@ fn main() {
 	if let Some(path) = ctx.replay.clone() {
 		replay(ctx, &path);
 	}
-	let alphas = vec![Alphabet::new(2, ctx.tier), Alphabet::new(3, ctx.tier)];
+	let alphas = vec![Alphabet::new(2, ctx.tier), Alphabet::new(3, ctx.tier), Alphabet::with_keys(2, KEYS_SHARED.to_vec())];
 	let nkeys = alphas[0].keys.len();
 	let max_depth: u8 = 3;
 	// (alphabet, max simultaneously present classes, chunk size)
@@ -748,7 +757,8 @@ fn main() {
 		m.count_ones() <= 3 || *m == chain || (ctx.tier == vcore::Tier::Thorough && m.count_ones() == 4 && (*m >> nquick) == 0)
 	}).collect();
 	let rule3 = ctx.tier.pick("every subset of <= 3 class keys, plus the complete chain {A, A$B, A$B$C, A$B$C$D}", "every subset of <= 3 class keys, plus every 4-subset of the first seven keys");
-	let plan = vec![(0usize, masks2.clone(), 256u64), (1usize, masks3.clone(), 128u64)];
+	let masks_shared: Vec<u32> = vcore::enumerate::subsets_by_size(alphas[2].keys.len());
+	let plan = vec![(0usize, masks2.clone(), 256u64), (1usize, masks3.clone(), 128u64), (2usize, masks_shared.clone(), 256u64)];
 	let g = run_graph(ctx, &alphas, &plan, max_depth);
 	if std::env::var_os("C11_TIMING").is_some() { eprintln!("graph done at {:.1}s", ctx.elapsed_s()); }
 
@@ -818,6 +828,7 @@ fn main() {
 			"target_kinds_per_class_and_namespace": KIND_NAMES,
 			"N=2": {"namespaces": alphas[0].ns, "present_class_sets": "every subset of the class keys", "present_class_set_count": masks2.len(), "acted_on_namespace_indices": [1]},
 			"N=3": {"namespaces": alphas[1].ns, "present_class_sets": rule3, "present_class_set_count": masks3.len(), "acted_on_namespace_indices": [1, 2]},
+			"N=2, shared target names": {"class_keys_and_simple_target_bases": KEYS_SHARED, "present_class_sets": "every subset", "present_class_set_count": masks_shared.len(), "why": "several classes carry the same simple target name; the target namespace need not be injective"},
 			"bfs_depth": max_depth,
 			"actions": ["extend:<ns>", "contract:<ns>"],
 			"helper_alphabet": HELPER_ALPHABET.iter().map(|c| c.to_string()).collect::<Vec<_>>(),
